@@ -218,6 +218,9 @@ func runC05(t *Trace, r *Rng, tier string, _ []string) {
 		ref := layouts[0]
 		for qi := 0; qi < nReq; qi++ {
 			q, ftok := genQuery(r, 3, ids, kinds)
+			if r.Chance(15) { // conjunctions of term-type clauses: scorch intersects their postings segment by segment
+				q, ftok = genConjOfTerms(r, kinds)
+			}
 			tok, _ := resolveFuzzy(ftok, true)
 			withScores := r.Chance(60)
 			mkReq := func() *bleve.SearchRequest {
